@@ -279,3 +279,43 @@ func assembleSign1(prot []byte, unprotRaw []byte, payload []byte, sig []byte) []
 	out = append(out, cborBstr(sig)...)
 	return out
 }
+
+// protectedAlg returns the integer value of label 1 in the protected bucket.
+func protectedAlg(prot []byte) (int64, bool) {
+	if len(prot) == 0 {
+		return 0, false
+	}
+	h, err := readHead(prot, 0)
+	if err != nil || h.Major != 5 || h.Info == 31 {
+		return 0, false
+	}
+	p := h.HLen
+	for i := uint64(0); i < h.Arg; i++ {
+		kh, err := readHead(prot, p)
+		if err != nil {
+			return 0, false
+		}
+		kEnd, err := walkItem(prot, p, 1, nil)
+		if err != nil {
+			return 0, false
+		}
+		if kh.Major == 0 && kh.Arg == 1 {
+			vh, err := readHead(prot, kEnd)
+			if err != nil {
+				return 0, false
+			}
+			switch vh.Major {
+			case 0:
+				return int64(vh.Arg), true
+			case 1:
+				return -1 - int64(vh.Arg), true
+			}
+			return 0, false
+		}
+		p, err = walkItem(prot, kEnd, 1, nil)
+		if err != nil {
+			return 0, false
+		}
+	}
+	return 0, false
+}
